@@ -514,6 +514,10 @@ def BItem.Legal (q : Char) : BItem → Prop
   | .byte _ _ => True
   | .char c => c ≠ q ∧ c ≠ '\\'
 
+/-- An ASCII character written as itself is the single byte with its code. -/
+theorem ascii_char_value (c : Char) (h : c.toNat < 128) : (BItem.char c).value = [UInt8.ofNat c.toNat] :=
+  utf8Bytes_ascii c h
+
 def bencode (items : List BItem) : List Char := items.flatMap BItem.spell
 def bvalue (items : List BItem) : List UInt8 := items.flatMap BItem.value
 
